@@ -15,7 +15,8 @@ a forked child ``os._exit`` there; the parent reads the directory back.
 Mode 'pyfault' raises from the k-th Python-level ``out_file.write`` call.
 A fault plan may carry ``crash2 = {j, done, prefix}``: after the fault fired the
 process is killed at event number j of that run (retry writes, closes, every
-primitive of the rollback and the final unlink).
+primitive of the rollback and the final unlink); or ``fault2 = {j, done}``: a
+second OSError is raised at event number j of that run (sequence of two faults).
 
 A case either lists its plans or asks for the exhaustive enumeration
 (``enumerate``): every primitive of the fault-free append x (fault | crash) x
@@ -61,6 +62,7 @@ class Ctl:
         self.bufsize = None
         self.fired_at = None
         self.dead = False
+        self.fired2 = False
 
     def tag(self, path):
         return self.tags.get(os.path.abspath(path))
@@ -73,6 +75,8 @@ class Ctl:
                 self.dead = True
                 raise Crash()
             os._exit(77)
+        if act['mode'] == 'fault2':
+            raise OSError(errno.EIO, 'injected second fault')
         self.fired = True
         self.fired_at = len(self.events)
         if self.plan.get('sticky'):
@@ -94,6 +98,10 @@ class Ctl:
         if not self.fired and plan['mode'] in ('fault', 'crash') and plan['k'] == idx:
             return {'mode': plan['mode'], 'done': plan.get('done', False), 'prefix': plan.get('prefix', 0),
                     'tag': tag}
+        f2 = plan.get('fault2')
+        if f2 and self.fired and idx == f2['j'] and not self.fired2:
+            self.fired2 = True
+            return {'mode': 'fault2', 'done': f2.get('done', False), 'prefix': f2.get('prefix', 0), 'tag': tag}
         c2 = plan.get('crash2')
         if c2 and self.fired and idx == c2['j']:
             return {'mode': 'crash', 'done': c2.get('done', False), 'prefix': c2.get('prefix', 0), 'tag': tag}
@@ -371,12 +379,18 @@ def second_level(plan, run, how):
     """after the fault of `plan` fired: a kill at every later event of that run"""
     if plan['mode'] not in ('fault', 'pyfault') or plan.get('sticky') or not run.get('fired'):
         return []
-    if how != 'all' and plan['mode'] == 'fault' and not plan.get('rep'):
+    if plan['mode'] == 'fault' and not plan.get('rep'):
         return []          # one representative variant per faulted primitive (the later events do not depend on it)
     ev = run['events']
     out = []
     for j in range(run['fired_at'], len(ev)):
         kind, tag, detail = ev[j]
+        # a second I/O error at this event
+        if kind == 'write':
+            out.append(dict(plan, fault2={'j': j, 'prefix': 0}))
+        else:
+            for done in (False, True):
+                out.append(dict(plan, fault2={'j': j, 'done': done}))
         if kind == 'write':
             ps = prefixes(detail if isinstance(detail, int) else 0, 'few' if how != 'all' else 'all')
             for p in ps:
@@ -446,7 +460,9 @@ def run_case(case):
             runs.append(run)
             if how and case.get('two_level', True):
                 for n2, p2 in enumerate(second_level(plan, run, how)):
-                    if case.get('kill') == 'sim':
+                    if p2.get('fault2'):
+                        runs.append(run_plan(d, rec, newrec, A, J, p2, before, bufsize, prefix, restart))
+                    elif case.get('kill') == 'sim':
                         # simulated kill; every 7th one is also done for real (fork + _exit) and compared
                         r2 = run_plan(d, rec, newrec, A, J, dict(p2, sim=True), before, bufsize, prefix, restart)
                         if n2 % 7 == 0:
@@ -511,6 +527,7 @@ def run_plan(d, rec, newrec, A, J, plan, before, bufsize, prefix, restart):
         finally:
             ctl.active = False
         out['fired'] = ctl.fired
+        out['fired2'] = ctl.fired2
         out['fired_at'] = ctl.fired_at
         out['events'] = ctl.events
     out['after'] = snapshot(d)
